@@ -43,6 +43,12 @@ fn take_token(runner: &fastcgi_server::async_io::Runner) -> Token {
 }
 
 fn c13(limit: usize, waiters: usize) {
+    c13_with(limit, waiters, false)
+}
+
+/// `cancel_first`: the oldest queued request is cancelled (dropped) on this thread while the other thread drops
+/// the tokens - the freed slot must still reach one of the remaining requests.
+fn c13_with(limit: usize, waiters: usize, cancel_first: bool) {
     let cfg = Config::with_conns(limit.try_into().unwrap());
     let runner = Arc::new(cfg.async_runner());
     let tokens: Vec<Token> = (0..limit).map(|_| take_token(&runner)).collect();
@@ -70,6 +76,10 @@ fn c13(limit: usize, waiters: usize) {
         }
         d2.store(true, Ordering::SeqCst);
     });
+    if cancel_first {
+        std::thread::yield_now();
+        drop(reqs.remove(0));
+    }
     // acquirer loop on this thread: poll a request whenever its waker fired
     let mut granted: Vec<Token> = Vec::new();
     let mut spins = 0u32;
@@ -291,6 +301,8 @@ fn main() {
             c13(1, 1);
             c13(2, 2);
             c13(1, 2);
+            c13_with(1, 2, true);
+            c13_with(2, 3, true);
         }
         Some("c14") => {
             c14(1, 1);
